@@ -174,6 +174,12 @@ func (m *Matrix) validatePermutation(p MatrixPermutation) error {
 
 	// Check if the permutation matches any adjustment.
 	for _, adj := range m.Adjustments {
+		if adj == nil {
+			// A null entry in the adjustments list is an adjustment without
+			// any dimension values (and not a reason to panic).
+			adj = &MatrixAdjustment{}
+		}
+
 		// Ensure adj.With has the same size and dimension names as m.Setup.
 		// adj.With is a map so no need to check for repetition.
 		// Because adjustments can introduce new dimension values, only the
